@@ -44,6 +44,9 @@ MonitorEquiv == everTrim = Trim(ever, offset) /\ bits = everTrim
 \* the functional forms used by behaviour generation are the actions
 FunctionalFormsAgree == [][/\ (last' = "compact" => tbvars' = CompactF(tbvars))
                            /\ (last' = "set" => \E idx \in 0..MaxIdx : tbvars' = SetF(tbvars, idx))]_vars
+\* the closed form of the range macro-step is the composition of the single steps, in every reachable state
+RangeFormAgrees == \A lo \in 0..MaxIdx : \A hi \in (lo + 1)..(MaxIdx + 1) :
+                      RangeOK(tbvars, lo, hi) => SetRangeF(tbvars, lo, hi) = SetFold(tbvars, lo, hi)
 OffsetMonotone   == [][offset' >= offset]_vars
 CompactKeepsGets == [][last' = "compact" =>
                         \A j \in 0..(offset + W * nw - 1) : Get1Val(j)' = Get1Val(j)]_vars
